@@ -79,7 +79,7 @@ impl StoreCfg {
             .bucket_ids_from_range(0..self.buckets)
             .writer_threads(self.writer_threads)
             .reader_threads(self.reader_threads)
-            .sync_interval(Duration::from_millis(self.sync_interval_ms))
+            .sync_interval(if self.sync_interval_ms == u64::MAX { Duration::MAX } else { Duration::from_millis(self.sync_interval_ms) })
             .sync_idle_interval(Duration::from_millis(self.sync_idle_ms))
             .max_batch_size(self.max_batch)
             .min_sync_bytes(self.min_sync_bytes)
@@ -595,11 +595,30 @@ pub struct Gen {
     pub op_counter: u64,
     /// restrict generated transactions to this key index
     pub only_key: Option<usize>,
+    /// > 0: streams go dormant for whole phases of this many operations (a stream then has events in
+    /// several sealed segments and none in the live one when it is written again)
+    pub phase_len: u64,
 }
 
 impl Gen {
     pub fn new(rng: &mut Rng, cfg: &StoreCfg, keys_per_partition: usize, streams_per_key: usize) -> Gen {
-        Gen { ids: Ids::new(), keys: make_keys(rng, cfg.partitions, keys_per_partition), streams_per_key, op_counter: 0, only_key: None }
+        let keys = make_keys(rng, cfg.partitions, keys_per_partition);
+        let phase_len = if rng.chance(1, 2) { 20 + rng.below(100) } else { 0 };
+        Gen { ids: Ids::new(), keys, streams_per_key, op_counter: 0, only_key: None, phase_len }
+    }
+    /// stream slot of key `ki` for the next event; with dormancy on, a slot sleeps one phase in four
+    fn pick_slot(&self, rng: &mut Rng, ki: usize) -> usize {
+        let mut k = rng.usize_below(self.streams_per_key);
+        if self.phase_len > 0 {
+            let phase = (self.op_counter / self.phase_len) as usize;
+            for _ in 0..8 {
+                if (ki * 7 + k * 3 + phase) % 4 != 0 {
+                    break;
+                }
+                k = rng.usize_below(self.streams_per_key);
+            }
+        }
+        k
     }
     pub fn stream_name(&self, key_idx: usize, k: usize) -> String {
         format!("st-{key_idx}-{k}")
@@ -645,7 +664,25 @@ impl Gen {
     /// A well-formed transaction against the current model state.
     pub fn txn(&mut self, rng: &mut Rng, model: &Model, o: &GenOpts) -> MTxn {
         self.op_counter += 1;
-        let ki = self.only_key.unwrap_or_else(|| rng.usize_below(self.keys.len()));
+        let ki = match self.only_key {
+            Some(k) => k,
+            None => {
+                // with dormancy on, a partition key sleeps one phase in three (its partition then lives in sealed
+                // segments only when it is written again)
+                let n = self.keys.len();
+                let mut k = rng.usize_below(n);
+                if self.phase_len > 0 && n > 1 {
+                    let phase = (self.op_counter / self.phase_len) as usize;
+                    for _ in 0..8 {
+                        if (k + phase) % 3 != 0 {
+                            break;
+                        }
+                        k = rng.usize_below(n);
+                    }
+                }
+                k
+            }
+        };
         let (pk, pid) = self.keys[ki];
         let hash = hash_of_key(pk);
         let n = match rng.below(10) { 0..=4 => 1, 5..=7 => 2, 8 => 3, _ => 1 + rng.usize_below(o.max_events.max(1)) }.min(o.max_events.max(1));
@@ -657,9 +694,9 @@ impl Gen {
             let (stream, owner_known) = if conflict && j == n - 1 {
                 let bucket = model.bucket_of(pid);
                 let others: Vec<usize> = (0..self.keys.len()).filter(|i| *i != ki && model.bucket_of(self.keys[*i].1) == bucket).collect();
-                if others.is_empty() { (self.stream_name(ki, rng.usize_below(self.streams_per_key)), true) } else { (self.stream_name(*rng.pick(&others), rng.usize_below(self.streams_per_key)), false) }
+                if others.is_empty() { (self.stream_name(ki, self.pick_slot(rng, ki)), true) } else { (self.stream_name(*rng.pick(&others), rng.usize_below(self.streams_per_key)), false) }
             } else {
-                (self.stream_name(ki, rng.usize_below(self.streams_per_key)), true)
+                (self.stream_name(ki, self.pick_slot(rng, ki)), true)
             };
             let c = match cur.get(&stream) {
                 Some(c) => *c,
